@@ -314,5 +314,13 @@ EmitMulti == (Allowed = {"ok"} /\ P # {} /\ \E v1, v2 \in V : v1 # v2 /\ v1.m = 
 MissingIn(R, ph) == UNION {ReqOf(t[3]) \ Avail(R, t[1], t[2]) : t \in {x \in ExistingChain(R) : x[2] = ph}}
 EmitUnres == (Allowed = {"NameError"} /\ ~Conflict /\ \E ph \in 1..3 : Cardinality(MissingIn("main", ph)) >= 2)
                 => PrintT(<<"EMIT", ToJson(Rec)>>)
+\* accepted configurations in which a function has a DEFAULTED parameter whose name is not in scope where the function
+\* runs but is provided elsewhere (by a deeper middleware, a later phase, another route): it must keep its default
+LateNames(R) == {nm \in AllNames : \E t \in ExistingChain(R) : nm \in (NamesOf(t[3]) \ ReqOf(t[3])) /\ nm \notin Avail(R, t[1], t[2])
+                                   /\ \E v \in V : v.n = nm}
+EmitLate == (Allowed = {"ok"} /\ LateNames("main") # {}) => PrintT(<<"EMIT", ToJson(Rec)>>)
+\* malformed middlewares whose FIRST defined function is fine and a LATER one does not take `next` first (every function of
+\* a middleware is checked, not only the first)
+EmitMwNextLater == (bad.k = "mwnext" /\ \E ph \in 1..3 : ph < bad.b /\ Exists(bad.a, ph)) => PrintT(<<"EMIT", ToJson(Rec)>>)
 EmitOk == (Allowed = {"ok"} /\ P # {} /\ (V # {} \/ ~NoSrc)) => PrintT(<<"EMIT", ToJson(Rec)>>)
 =============================================================================
